@@ -71,6 +71,7 @@ class Ledger:
         self.units = {}       # relpath -> sha256
         self.functions = set()
         self.floors = []      # (rule, what, found, floor)
+        self.deficits = []
         self.cmds = []        # external parser command lines (clang)
         self.assumptions = []
         self.explanation = explanation
@@ -120,7 +121,9 @@ class Ledger:
     def floor(self, rule, what, found, floor):
         self.floors.append((rule, what, found, floor))
         if found < floor:
-            raise AnalysisError(
+            # deferred: a recognised violation takes precedence over "cannot
+            # tell"; without one the run ends as ANALYSIS-ERROR (see finish)
+            self.deficits.append(
                 "[%s] instance count below floor: %s: found %d, confirmed by "
                 "hand %d -- the rule would pass vacuously" % (rule, what, found, floor))
 
@@ -140,6 +143,8 @@ class Ledger:
                 knownhits.append((o, k))
             else:
                 viol.append(o)
+        if self.deficits and not viol:
+            raise AnalysisError("; ".join(self.deficits))
         out = []
         for o, k in knownhits:
             out.append("KNOWN-FINDING: property=%s [%s] %s:%s: %s -- %s" % (
